@@ -76,7 +76,7 @@ def main():
                             dst = os.path.join(wt, relp)
                             os.makedirs(os.path.dirname(dst), exist_ok=True)
                             shutil.copyfile(os.path.join(root, f), dst)
-            run = meta.get("demo_run", "")
+            run = meta.get("demo_run", "").split("   (")[0].split("  #")[0].strip()
             install_demo()
             rc, o = sh(run, cwd=wt, timeout=900)
             ran["demo_without_change"] = "pass" if rc == 0 else "FAIL: " + o[-800:]
